@@ -29,8 +29,13 @@ RULES = {
     "attribute looked up in its substitution map, every field of the attribute it builds (referenced parameter name, type, "
     "value, doc string) is taken from the looked-up attribute - mixing in a field of the attribute being replaced makes the "
     "inlined node refer to a parameter of the callee that the enclosing function does not declare",
+    "R7": "a pass gives an attribute to an existing node only when the node has no attribute of that name: every store "
+    "`<node>.attributes[K] = …` in the pass modules comes after a skip (`continue`/`return`) whose condition holds whenever "
+    "`K in <node>.attributes` (also spelled `.get(K) is not None`) - presence is decided by the key, never by the stored "
+    "attribute's value: a reference attribute (`alpha = @alpha` inside a function) has value None and must not be overwritten "
+    "by the schema default",
 }
-FLOORS = {"R1": 5, "R2": 6, "R3": 8, "R4": 6, "R5": 8, "R6": 2}
+FLOORS = {"R1": 5, "R2": 6, "R3": 8, "R4": 6, "R5": 8, "R6": 2, "R7": 1}
 EXPLANATION = (
     "Four structural necessary conditions of semantic preservation that the pass mechanisms rely on: guarded removal, "
     "interface-size preservation (call-site scan with receiver typing), data-dependence of the equivalence keys on all "
@@ -494,7 +499,75 @@ def rule_r6(ctx):
                   construct=f"substitution mixes in {norm(bad) if bad is not None else ''}")
 
 
+def _is_membership(t, key: str, recv: str, f) -> bool:
+    """`key in recv.attributes`, `recv.attributes.get(key) is not None`, or a local bound to that .get() `is not None`."""
+    if isinstance(t, ast.Compare) and len(t.ops) == 1:
+        if isinstance(t.ops[0], ast.In) and norm(t.left) == key and norm(t.comparators[0]) == f"{recv}.attributes":
+            return True
+        if isinstance(t.ops[0], ast.IsNot) and isinstance(t.comparators[0], ast.Constant) and t.comparators[0].value is None:
+            e = t.left
+            if isinstance(e, ast.Name):
+                defs = [a.value for a in own_nodes(f.node) if isinstance(a, ast.Assign) and any(isinstance(x, ast.Name) and x.id == e.id for x in a.targets)]
+                e = defs[0] if len(defs) == 1 else e
+            return norm(e) == f"{recv}.attributes.get({key})"
+    return False
+
+
+def rule_r7(ctx):
+    n = 0
+    for m in ctx.repo.modules.values():
+        if not m.name.startswith("onnx_ir.passes") or m.name.endswith("_test"):
+            continue
+        for f in m.all_funcs:
+            if isinstance(f.node, ast.Lambda):
+                continue
+            for st in own_nodes(f.node):
+                if not isinstance(st, ast.Assign):
+                    continue
+                for t in st.targets:
+                    if not (isinstance(t, ast.Subscript) and isinstance(t.value, ast.Attribute) and t.value.attr == "attributes"):
+                        continue
+                    recv, key = norm(t.value.value), norm(t.slice)
+                    if isinstance(t.value.value, ast.Name) and t.value.value.id in _fresh_nodes(f):
+                        continue  # a node the pass has just built
+                    n += 1
+                    # skips earlier in the same block (and in enclosing blocks)
+                    ok = False
+                    blk, cur = getattr(st, "_parent", None), st
+                    while blk is not None and not ok:
+                        for fld in ("body", "orelse"):
+                            body = getattr(blk, fld, None)
+                            if isinstance(body, list) and cur in body:
+                                for prev in body[: body.index(cur)]:
+                                    if isinstance(prev, ast.If) and prev.body and isinstance(prev.body[-1], (ast.Continue, ast.Return)):
+                                        ops = prev.test.values if isinstance(prev.test, ast.BoolOp) and isinstance(prev.test.op, ast.Or) else [prev.test]
+                                        ok = ok or any(_is_membership(o, key, recv, f) for o in ops)
+                        if isinstance(blk, ast.If) and cur in blk.body:
+                            ops = blk.test.values if isinstance(blk.test, ast.BoolOp) and isinstance(blk.test.op, ast.And) else [blk.test]
+                            ok = ok or any(isinstance(o, ast.Compare) and len(o.ops) == 1 and isinstance(o.ops[0], ast.NotIn) and norm(o.left) == key
+                                           and norm(o.comparators[0]) == f"{recv}.attributes" for o in ops)
+                        if blk is f.node:
+                            break
+                        cur, blk = blk, getattr(blk, "_parent", None)
+                    ctx.check("R7", f"{f.local}: `{norm(t)} = …` only when {recv} has no attribute {key}", ok, f, st,
+                              f"`{norm(st)[:80]}` is not preceded by a skip that fires whenever `{key} in {recv}.attributes`: an attribute the node already has - "
+                              "for instance a reference attribute, whose value is None - is overwritten, so a function body stops forwarding its attribute "
+                              "parameter and computes with the schema default instead",
+                              how="skips (`if …: continue/return`) before the store in the enclosing blocks: an operand that is a pure key-membership test",
+                              construct=f"attribute store without key-absence guard in {f.local}")
+    ctx.require(n >= 1, "no attribute store into an existing node found in the pass modules")
+
+
+def _fresh_nodes(f) -> set:
+    out = set()
+    for a in own_nodes(f.node):
+        if isinstance(a, ast.Assign) and isinstance(a.value, ast.Call) and (dotted_of(a.value.func) or "").split(".")[-1] in ("Node", "node"):
+            out |= {x.id for x in a.targets if isinstance(x, ast.Name)}
+    return out
+
+
 def run(ctx):
+    rule_r7(ctx)
     rule_r6(ctx)
     rule_r5(ctx)
     rule_r1(ctx)
